@@ -588,6 +588,63 @@ def c20_frame_small():
 
 
 # ---------------------------------------------------------------- C05: every population's sampling factor uses its own quantities
+def c05_inbreeding_1d(n=2, G=4):
+    """Spectrum._from_phi_1D_direct_inbreeding(n, xx, phi, F, ploidy 2) on a G-point grid, BetaBinomConvolution uninterpreted:
+         data[d] = trapz_k( BBC(d, n/2, alpha_k, beta_k) * phi_k )   for EVERY d = 0..n (the two end entries included: they are part of the total),
+       alpha_k = x_k (1-F)/F, beta_k = (1-x_k)(1-F)/F, with the two end grid points moved in by 1e-20 as the code documents;
+       an n not divisible by the ploidy is refused."""
+    oid = 'C05/Spectrum_mod.py:Spectrum._from_phi_1D_direct_inbreeding/n%d_G%d' % (n, G)
+    fn = 'dadi/Spectrum_mod.py::Spectrum._from_phi_1D_direct_inbreeding'
+
+    @guarded(oid, fn)
+    def go():
+        xs = reals('x', G)
+        ph = reals('phi', G)
+        F = z3.Real('F')
+        hy = [xs[i] < xs[i + 1] for i in range(G - 1)] + [F > 0, F < 1]
+        BB = uf('BetaBinomConvolution', 4)
+
+        def pol(fr):
+            if fr.qualname == 'BetaBinomConvolution':
+                return lambda ex_, f_, a, kw: BB(to_real(exact(a[0])), to_real(exact(a[1])), to_real(exact(a[2])), to_real(exact(a[3])))
+            return 'inline' if fr.qualname in ('Spectrum._from_phi_1D_direct_inbreeding', 'trapz') else 'abstract'
+        made = []
+
+        def ah(ex_, fref, a, kw, ctx):
+            if (isinstance(fref, ClassRef) and fref.node.name == 'Spectrum') or (isinstance(fref, Tm) and 'Spectrum' in fref.op):
+                made.append(dict(kw))
+                return a[0]
+            return NotImplemented
+        ex = Executor(policy=pol)
+        ex.abstract_hook = ah
+        f = ex.func('dadi/Spectrum_mod.py', 'Spectrum._from_phi_1D_direct_inbreeding')
+        mc = z3.Bool('mask_corners')
+        paths = ex.run(f, [n, VList(list(xs), 'ndarray'), VList(list(ph), 'ndarray'), F], dict(mask_corners=mc), base_pc=hy)
+        if len(paths) != 1 or paths[0].outcome != 'return' or len(made) != 1:
+            return [struct(oid, False, 'expected one returning path constructing one Spectrum: %r' % paths[:2], fn, undecided=True)]
+        res = paths[0].value
+        pc = hy + list(paths[0].pc)
+        out = [struct(oid + '.shape', isinstance(res, VList) and len(res.items) == n + 1, 'n + 1 entries', fn, finding_key='C05/inbreeding-1d')]
+        if not (isinstance(res, VList) and len(res.items) == n + 1):
+            return out
+        c = (1 - F) / F
+        tiny = z3.RealVal('1/100000000000000000000')
+        al = [xs[k] * c for k in range(G)]
+        be = [(1 - xs[k]) * c for k in range(G)]
+        al[0], al[G - 1] = tiny * c, (1 - tiny) * c
+        be[0], be[G - 1] = (1 - tiny) * c, tiny * c
+        w = _trapz_weights(xs)
+        for d in range(n + 1):
+            want = sum((w[k] * BB(z3.RealVal(d), z3.RealVal(n) / 2, al[k], be[k]) * ph[k] for k in range(G)), z3.RealVal(0))
+            out.append(prove_eq('%s.entry%d' % (oid, d), pc, res.items[d], want, fn, finding_key='C05/inbreeding-1d'))
+        okm = made[0].get('mask_corners') is mc or (isinstance(made[0].get('mask_corners'), z3.ExprRef) and made[0]['mask_corners'].eq(mc))
+        out.append(struct(oid + '.mask_corners-forwarded', bool(okm), 'the caller\'s mask_corners reaches the constructor', fn, finding_key='C05/inbreeding-1d'))
+        paths2 = ex.run(f, [3, VList(list(xs), 'ndarray'), VList(list(ph), 'ndarray'), F], {}, base_pc=hy)
+        out.append(struct(oid + '.odd-n-refused', len(paths2) == 1 and paths2[0].outcome == 'raise', 'n not divisible by the ploidy raises', fn))
+        return out
+    return go()
+
+
 def c05_inbreeding_roles():
     oid = 'C05/Spectrum_mod.py'
     out = []
